@@ -2,13 +2,15 @@ package main
 
 import (
 	"context"
+	"encoding/json"
+	"os"
+	"path/filepath"
 	"crypto/x509"
 	"errors"
 	"fmt"
 	"math/big"
 	"net/http"
 	"sort"
-	"strings"
 	"sync"
 	"time"
 
@@ -102,8 +104,7 @@ type certOut struct {
 	Result  int
 	Method  int
 	Servers [][2]int // (result, url id)
-	OLog    []int
-	CLog    []int
+	Log     []int
 }
 
 // runRevCase executes the case against the implementation and renders the Coq case term
@@ -112,6 +113,8 @@ func runRevCase(c *revCase) (string, map[string]any, []certOut, bool) {
 	xs := c.Chain.xs()
 	rt := newWorldRT()
 	wf := newWorldFetcher()
+	seq := &eventSeq{}
+	rt.seq, wf.seq = seq, seq
 	var ocspTerms, fetchTerms []string
 	desc := map[string]any{"entry": c.Entry, "purpose": c.Purpose, "len": len(xs), "labels": c.Labels, "http_crl": c.HTTPCRL, "cancel": c.Cancel}
 	od := map[string]string{}
@@ -197,6 +200,7 @@ func runRevCase(c *revCase) (string, map[string]any, []certOut, bool) {
 	if c.Cancel == "before" {
 		cancel()
 	}
+	noteCurrentCase(desc)
 	now := time.Now()
 	var res []*result.CertRevocationResult
 	var err error
@@ -230,13 +234,12 @@ func runRevCase(c *revCase) (string, map[string]any, []certOut, bool) {
 	if panicked {
 		implTerm = "None"
 	} else if err == nil {
-		reqs := rt.requests()
-		fl := wf.fetched()
+		evs := seq.all() // delta downloads (URL + ".delta") are not owned by a certificate slot and are skipped
 		var items []string
 		for i, r := range res {
 			co := certOut{}
 			if r == nil {
-				items = append(items, "(CRes RUnknown [] MUnknown, ([], []))")
+				items = append(items, "(CRes RUnknown [] MUnknown, [])")
 				outs = append(outs, co)
 				continue
 			}
@@ -250,31 +253,16 @@ func runRevCase(c *revCase) (string, map[string]any, []certOut, bool) {
 				co.Servers = append(co.Servers, [2]int{int(s.Result), uid})
 				srv = append(srv, fmt.Sprintf("(SRes %s %d)", resTerm(int(s.Result)), uid))
 			}
-			var ol, cl []string
-			for _, u := range reqs {
-				base := strings.TrimSuffix(u, ".delta")
-				if o, ok := urlOwner[base]; ok && o == i && base == u {
+			var lg []string
+			for _, u := range evs {
+				if o, ok := urlOwner[u]; ok && o == i {
 					id := urlIDs.id([]byte(u))
-					if strings.Contains(u, "crl.test") {
-						cl = append(cl, fmt.Sprint(id))
-						co.CLog = append(co.CLog, id)
-					} else {
-						ol = append(ol, fmt.Sprint(id))
-						co.OLog = append(co.OLog, id)
-					}
-				}
-			}
-			if !c.HTTPCRL {
-				for _, u := range fl {
-					if o, ok := urlOwner[u]; ok && o == i {
-						id := urlIDs.id([]byte(u))
-						cl = append(cl, fmt.Sprint(id))
-						co.CLog = append(co.CLog, id)
-					}
+					lg = append(lg, fmt.Sprint(id))
+					co.Log = append(co.Log, id)
 				}
 			}
 			outs = append(outs, co)
-			items = append(items, fmt.Sprintf("(CRes %s %s %s, (%s, %s))", resTerm(co.Result), cList(srv), methTerm(co.Method), cList(ol), cList(cl)))
+			items = append(items, fmt.Sprintf("(CRes %s %s %s, %s)", resTerm(co.Result), cList(srv), methTerm(co.Method), cList(lg)))
 		}
 		implTerm = "(Some " + cList(items) + ")"
 	} else {
@@ -313,4 +301,15 @@ func methTerm(m int) string {
 		return "MFallback"
 	}
 	return "MUnknown"
+}
+
+// noteCurrentCase records the case about to run, so that a process abort can be attributed.
+var currentCaseDir string
+
+func noteCurrentCase(desc map[string]any) {
+	if currentCaseDir == "" {
+		return
+	}
+	b, _ := json.Marshal(desc)
+	os.WriteFile(filepath.Join(currentCaseDir, "current_case.json"), b, 0o644)
 }
